@@ -45,7 +45,10 @@ CONSTANTS NS,          \* number of streams A opens
           AllowReset, AllowStop, AllowLoss,
           Extra,       \* which of the futures "CN","HD","Z1","Z2","CL","WI" exist
           CloseKinds,  \* subset of {"localA","localB","endpointA","endpointB"}
-          Deviations   \* subset of {"drop_closed"}
+          Deviations,  \* subset of {"drop_closed"}
+          DgReaders,   \* 1 | 2: tasks parked in recv_datagram (with 2, each takes one datagram)
+          DgWakeAll,   \* TRUE as the code is: DatagramReceived wakes EVERY parked reader (control: FALSE)
+          FinishWakes  \* TRUE as the code is: SendStream::finish calls state.wake() (control: FALSE)
 
 Sides == {"A", "B"}
 Other(x) == IF x = "A" THEN "B" ELSE "A"
@@ -64,6 +67,7 @@ Rf(j) == <<"R", j>>       \* reader task j (B): accept, read.. until end-of-stre
 X(n)  == <<n, 0>>
 Fut == {Wf(s) : s \in Streams} \cup {Rf(j) : j \in Streams}
          \cup (IF NDg > 0 THEN {X("DS"), X("DR")} ELSE {})
+         \cup (IF NDg > 0 /\ DgReaders = 2 THEN {X("DR2")} ELSE {})
          \cup {X(e) : e \in Extra}
 SideOf(f) == IF f[1] \in {"W", "DS", "CN", "HD", "CL"} THEN "A" ELSE "B"
 Handshaking == Extra \cap {"CN", "HD", "Z1", "Z2"} # {}
@@ -74,14 +78,27 @@ VARIABLES fs, ph, tab, err, drv, hs,
           sent, wire, rbuf, got, credit, cw, cmax, cmw, cblk,
           finS, finD, stopS, stopD, acked, freed,
           dgNext, dgOut, dgWire, dgBuf, dgGot, dgBlocked,
-          closeWire, epClosed, chan
+          closeWire, epClosed, chan,
+          kick,     \* [side -> the poller waker of the driver task was fired (state.wake()): a turn is due]
+          finOut    \* [stream -> the FIN was handed to the network by a turn of A's driver]
 
 appv  == <<fs, ph, tab>>
 connv == <<err, drv, hs, closeWire, epClosed, chan>>
 strv  == <<win, maxs0, total, openSeq, maxS, msWire, annUpTo, nAcc, rs>>
 datav == <<sent, wire, rbuf, got, credit, cw, cmax, cmw, cblk, finS, finD, stopS, stopD, acked, freed>>
 dgv   == <<dgNext, dgOut, dgWire, dgBuf, dgGot, dgBlocked>>
-vars  == <<appv, connv, strv, datav, dgv>>
+wakev == <<kick, finOut>>
+vars  == <<appv, connv, strv, datav, dgv, wakev>>
+
+\* state.wake(): what an API call queued in quinn-proto only leaves the machine when the driver task
+\* runs an iteration (poll_transmit). The driver runs when its poller waker was fired (kick) or
+\* when anything else turns it (a packet, a timer, a channel event: every Driver.. action of side A).
+\* Only the FIN is tracked this way (finOut); data, credit and close are transmitted eagerly.
+WakeSame == UNCHANGED wakev
+FlushA == /\ finOut' = [s \in 1..NS |-> finOut[s] \/ finS[s] = "fin"]
+          /\ kick' = [kick EXCEPT !["A"] = FALSE]
+FinishWake == /\ kick' = [kick EXCEPT !["A"] = @ \/ FinishWakes] /\ UNCHANGED finOut
+TurnOf(x) == IF x = "A" THEN FlushA ELSE WakeSame
 
 RECURSIVE SumTo(_, _)
 SumTo(f, n) == IF n = 0 THEN 0 ELSE f[n] + SumTo(f, n - 1)
@@ -139,6 +156,8 @@ Init ==
   /\ closeWire = [x \in Sides |-> FALSE]
   /\ epClosed = [x \in Sides |-> FALSE]
   /\ chan = [x \in Sides |-> FALSE]
+  /\ kick = [x \in Sides |-> FALSE]
+  /\ finOut = [s \in Streams |-> FALSE]
 
 Up == hs = "done"                       \* the application has its Connection objects
 Open(x) == err[x] = "none"
@@ -161,6 +180,7 @@ PollOpenStream(s) ==
                /\ Finish(f, "idle")
           ELSE Register(f, "stream_available") /\ UNCHANGED <<ph, openSeq, total>>
   /\ UNCHANGED <<connv, win, maxs0, maxS, msWire, annUpTo, nAcc, rs, datav, dgv>>
+  /\ WakeSame
 
 \* SendStream::execute_poll_write
 TotalSent == Sum(sent)
@@ -179,6 +199,7 @@ ExecutePollWrite(s) ==
                /\ cblk' = IF sent[s] < credit[s] THEN cblk \cup {s} ELSE cblk   \* connection_blocked
                /\ UNCHANGED <<ph, sent, wire>>
   /\ UNCHANGED <<connv, strv, rbuf, got, credit, cw, cmax, cmw, finS, finD, stopS, stopD, acked, freed, dgv>>
+  /\ WakeSame
 
 \* SendStream::finish (synchronous)
 FinishStream(s) ==
@@ -187,6 +208,7 @@ FinishStream(s) ==
   /\ finS' = [finS EXCEPT ![s] = IF Open("A") /\ ~stopD[s] THEN "fin" ELSE @]
   /\ ph' = [ph EXCEPT ![f] = "stopped"]
   /\ UNCHANGED <<fs, tab, connv, strv, sent, wire, rbuf, got, credit, cw, cmax, cmw, cblk, finD, stopS, stopD, acked, freed, dgv>>
+  /\ FinishWake
 
 \* SendStream::reset instead of writing on / finishing
 ResetStream(s) ==
@@ -197,6 +219,7 @@ ResetStream(s) ==
   /\ ph' = [ph EXCEPT ![f] = "end"]
   /\ Finish(f, "done")
   /\ UNCHANGED <<connv, strv, sent, rbuf, got, credit, cw, cmax, cmw, cblk, finD, stopS, stopD, acked, freed, dgv>>
+  /\ WakeSame
 
 \* SendStream::stopped
 PollStopped(s) ==
@@ -206,6 +229,7 @@ PollStopped(s) ==
      ELSE IF ~Open("A") THEN Finish(f, "err")
      ELSE Register(f, "stopped")
   /\ UNCHANGED <<ph, connv, strv, datav, dgv>>
+  /\ WakeSame
 
 \* Connection::poll_accept_stream (accept_uni / accept_bi)
 PollAcceptStream(j) ==
@@ -219,6 +243,7 @@ PollAcceptStream(j) ==
                /\ Finish(f, "idle")
           ELSE Register(f, "stream_opened") /\ UNCHANGED <<ph, nAcc, rs>>
   /\ UNCHANGED <<connv, win, maxs0, total, openSeq, maxS, msWire, annUpTo, datav, dgv>>
+  /\ WakeSame
 
 \* RecvStream::execute_poll_read: buffered data is handed out even after the connection ended
 ExecutePollRead(j, k) ==
@@ -245,6 +270,7 @@ ExecutePollRead(j, k) ==
              ELSE IF ~Open("B") THEN Finish(f, "err") /\ UNCHANGED <<ph, freed, msWire>>
              ELSE Register(f, "readable") /\ UNCHANGED <<ph, freed, msWire>>
   /\ UNCHANGED <<connv, win, maxs0, total, openSeq, maxS, annUpTo, nAcc, rs, sent, wire, credit, cmax, cblk, finS, finD, stopS, stopD, acked, dgv>>
+  /\ WakeSame
 
 \* RecvStream::stop (also what dropping an unfinished RecvStream does)
 StopStream(j) ==
@@ -256,6 +282,7 @@ StopStream(j) ==
   /\ msWire' = msWire + 1
   /\ ph' = [ph EXCEPT ![f] = "end"] /\ Finish(f, "done")
   /\ UNCHANGED <<connv, win, maxs0, total, openSeq, maxS, annUpTo, nAcc, rs, sent, wire, got, credit, cw, cmax, cmw, cblk, finS, finD, stopD, acked, dgv>>
+  /\ WakeSame
 
 \* Connection::try_send_datagram (send_datagram_wait)
 TrySendDatagram ==
@@ -268,17 +295,19 @@ TrySendDatagram ==
           ELSE /\ dgBlocked' = TRUE /\ Register(f, "datagrams_unblocked")
                /\ UNCHANGED <<dgNext, dgOut>>
   /\ UNCHANGED <<ph, connv, strv, datav, dgWire, dgBuf, dgGot>>
+  /\ WakeSame
 
 \* Connection::poll_recv_datagram
-PollRecvDatagram ==
-  LET f == X("DR") IN
-  /\ NDg > 0 /\ Up /\ Runnable(f)
+PollRecvDatagram(r) ==
+  LET f == X(r) IN
+  /\ NDg > 0 /\ f \in Fut /\ Up /\ Runnable(f)
   /\ IF ~Open("B") THEN Finish(f, "err") /\ UNCHANGED <<dgBuf, dgGot>>
      ELSE IF Len(dgBuf) > 0
           THEN /\ dgGot' = Append(dgGot, Head(dgBuf)) /\ dgBuf' = Tail(dgBuf)
-               /\ Finish(f, IF Head(dgBuf) = NDg THEN "done" ELSE "idle")
+               /\ Finish(f, IF DgReaders = 2 \/ Head(dgBuf) = NDg THEN "done" ELSE "idle")
           ELSE Register(f, "datagram_received") /\ UNCHANGED <<dgBuf, dgGot>>
   /\ UNCHANGED <<ph, connv, strv, datav, dgNext, dgOut, dgWire, dgBlocked>>
+  /\ WakeSame
 
 \* <Connecting as Future>::poll on A
 PollConnecting ==
@@ -288,6 +317,7 @@ PollConnecting ==
      ELSE IF hs = "done" THEN Finish(f, "done")
      ELSE Register(f, "on_connected")
   /\ UNCHANGED <<ph, connv, strv, datav, dgv>>
+  /\ WakeSame
 
 \* Connecting::handshake_data on A
 PollHandshakeData ==
@@ -297,6 +327,7 @@ PollHandshakeData ==
      ELSE IF hs # "init" THEN Finish(f, "done")
      ELSE Register(f, "on_handshake_data")
   /\ UNCHANGED <<ph, connv, strv, datav, dgv>>
+  /\ WakeSame
 
 \* Connection::accepted_0rtt on a 0.5-RTT connection of B (Connection is Clone: two waiters)
 PollAccepted0rtt(z) ==
@@ -306,6 +337,7 @@ PollAccepted0rtt(z) ==
      ELSE IF hs = "done" THEN Finish(f, "done")
      ELSE Register(f, "on_connected")
   /\ UNCHANGED <<ph, connv, strv, datav, dgv>>
+  /\ WakeSame
 
 \* Connection::closed on A: takes the driver's JoinHandle out of the state and awaits it
 PollClosed ==
@@ -314,6 +346,7 @@ PollClosed ==
   /\ IF ~drv["A"] /\ ~Open("A") THEN Finish(f, "done")      \* the driver task has ended
      ELSE Register(f, "closed_join")
   /\ UNCHANGED <<ph, connv, strv, datav, dgv>>
+  /\ WakeSame
 
 \* DEVIATION (known finding): the pending closed() future is dropped (select!, timeout).
 \* Dropping the JoinHandle cancels the driver task of the connection.
@@ -324,6 +357,7 @@ DropClosed ==
   /\ tab' = [tab EXCEPT !["A"]["closed_join"] = {}]
   /\ fs' = [fs EXCEPT ![f] = "done"]
   /\ UNCHANGED <<ph, err, hs, closeWire, epClosed, chan, strv, datav, dgv>>
+  /\ WakeSame
 
 \* Endpoint::wait_incoming on B's endpoint (EndpointState::poll_incoming)
 PollIncoming ==
@@ -332,6 +366,7 @@ PollIncoming ==
   /\ IF epClosed["B"] THEN Finish(f, "done")                \* None
      ELSE Register(f, "incoming")
   /\ UNCHANGED <<ph, connv, strv, datav, dgv>>
+  /\ WakeSame
 
 \* ===========================================================================
 \* close paths
@@ -347,6 +382,7 @@ Close(x) ==
   /\ CloseName("local", x) \in CloseKinds /\ Up /\ Open(x)
   /\ CloseEffect(x)
   /\ UNCHANGED <<ph, drv, hs, epClosed, chan, strv, datav, dgv>>
+  /\ WakeSame
 
 \* Endpoint::close: a ConnectionEvent::Close is queued for every connection, incoming_wakers woken
 EndpointClose(x) ==
@@ -355,6 +391,7 @@ EndpointClose(x) ==
   /\ chan' = [chan EXCEPT ![x] = TRUE]
   /\ Wake(x, [NoWake EXCEPT !["incoming"] = All(x, "incoming")])
   /\ UNCHANGED <<ph, err, drv, hs, closeWire, strv, datav, dgv>>
+  /\ WakeSame
 
 \* driver: ConnectionEvent::Close(..) => state.close(..)
 DriverCloseEvent(x) ==
@@ -362,6 +399,7 @@ DriverCloseEvent(x) ==
   /\ chan' = [chan EXCEPT ![x] = FALSE]
   /\ IF Open(x) THEN CloseEffect(x) ELSE UNCHANGED <<err, closeWire, tab, fs>>
   /\ UNCHANGED <<ph, drv, hs, epClosed, strv, datav, dgv>>
+  /\ TurnOf(x)
 
 \* driver: Event::ConnectionLost { reason } => state.terminate(reason)
 DriverConnectionLost(x) ==
@@ -371,6 +409,7 @@ DriverConnectionLost(x) ==
      THEN err' = [err EXCEPT ![x] = "peer"] /\ Wake(x, TerminateWakes(x))
      ELSE UNCHANGED <<err, tab, fs>>
   /\ UNCHANGED <<ph, drv, hs, epClosed, chan, strv, datav, dgv>>
+  /\ TurnOf(x)
 
 \* driver: conn.is_drained() => the loop ends, the task completes, its JoinHandle's waker fires
 DriverDrained(x) ==
@@ -378,6 +417,7 @@ DriverDrained(x) ==
   /\ drv' = [drv EXCEPT ![x] = FALSE]
   /\ Wake(x, [NoWake EXCEPT !["closed_join"] = All(x, "closed_join")])
   /\ UNCHANGED <<ph, err, hs, closeWire, epClosed, chan, strv, datav, dgv>>
+  /\ TurnOf(x)
 
 \* ===========================================================================
 \* driver iterations that process a frame from the peer (ConnectionInner::run)
@@ -390,6 +430,7 @@ DriverHandshakeDataReady ==
   /\ hs' = "data"
   /\ Wake("A", [NoWake EXCEPT !["on_handshake_data"] = All("A", "on_handshake_data")])
   /\ UNCHANGED <<ph, err, drv, closeWire, epClosed, chan, strv, datav, dgv>>
+  /\ FlushA
 
 \* Connected => connected = true; on_connected.take().wake()
 DriverConnected ==
@@ -398,6 +439,7 @@ DriverConnected ==
   /\ tab' = [x \in Sides |-> [tab[x] EXCEPT !["on_connected"] = {}]]
   /\ fs' = [f \in Fut |-> IF fs[f] = "pend" /\ f \in tab[SideOf(f)]["on_connected"] THEN "woken" ELSE fs[f]]
   /\ UNCHANGED <<ph, err, drv, closeWire, epClosed, chan, strv, datav, dgv>>
+  /\ FlushA
 
 \* B: STREAM frame(s) of stream s with k units (and possibly the FIN).
 \* New stream  => Stream(Opened{dir})  => stream_opened[dir].drain().wake()
@@ -405,7 +447,7 @@ DriverConnected ==
 DriverStreamFrame(s, k, withFin) ==
   /\ Live("B") /\ IsOpen(s) /\ finD[s] = "no" /\ ~stopS[s]
   /\ k \in 0..Len(wire[s])
-  /\ withFin => (finS[s] = "fin" /\ k = Len(wire[s]))
+  /\ withFin => (finS[s] = "fin" /\ finOut[s] /\ k = Len(wire[s]))
   /\ k > 0 \/ withFin
   /\ rbuf' = [rbuf EXCEPT ![s] = @ \o SubSeq(wire[s], 1, k)]
   /\ wire' = [wire EXCEPT ![s] = SubSeq(@, k + 1, Len(@))]
@@ -416,6 +458,7 @@ DriverStreamFrame(s, k, withFin) ==
      ELSE /\ UNCHANGED annUpTo
           /\ Wake("B", [NoWake EXCEPT !["readable"] = OfStream("B", "readable", s)])
   /\ UNCHANGED <<ph, connv, win, maxs0, total, openSeq, maxS, msWire, nAcc, rs, sent, got, credit, cw, cmax, cmw, cblk, finS, stopS, stopD, acked, freed, dgv>>
+  /\ WakeSame
 
 \* B: RESET_STREAM => Stream(Readable{id}) (or Opened for a stream not seen before)
 DriverResetStream(s) ==
@@ -428,6 +471,7 @@ DriverResetStream(s) ==
      ELSE /\ UNCHANGED annUpTo
           /\ Wake("B", [NoWake EXCEPT !["readable"] = OfStream("B", "readable", s)])
   /\ UNCHANGED <<ph, connv, win, maxs0, total, openSeq, maxS, msWire, nAcc, rs, sent, wire, got, credit, cw, cmax, cmw, cblk, finS, stopS, stopD, acked, freed, dgv>>
+  /\ WakeSame
 
 \* A: MAX_STREAM_DATA => Stream(Writable{id}) => wake_stream(id, writable)
 \* (quinn-proto parks the stream in connection_blocked when the connection window is closed)
@@ -439,6 +483,7 @@ DriverMaxStreamData(s) ==
      THEN Wake("A", [NoWake EXCEPT !["writable"] = OfStream("A", "writable", s)]) /\ UNCHANGED cblk
      ELSE cblk' = cblk \cup {s} /\ UNCHANGED <<tab, fs>>
   /\ UNCHANGED <<ph, connv, strv, sent, wire, rbuf, got, cmax, cmw, finS, finD, stopS, stopD, acked, freed, dgv>>
+  /\ FlushA
 
 \* A: MAX_DATA => every stream in connection_blocked gets Stream(Writable{id})
 DriverMaxData ==
@@ -447,6 +492,7 @@ DriverMaxData ==
   /\ cblk' = {}
   /\ Wake("A", [NoWake EXCEPT !["writable"] = {f \in tab["A"]["writable"] : StreamOf(f) \in cblk}])
   /\ UNCHANGED <<ph, connv, strv, sent, wire, rbuf, got, credit, cw, finS, finD, stopS, stopD, acked, freed, dgv>>
+  /\ FlushA
 
 \* A: everything including the FIN acknowledged => Stream(Finished{id}) => wake_stream(id, stopped)
 DriverFinished(s) ==
@@ -454,6 +500,7 @@ DriverFinished(s) ==
   /\ acked' = [acked EXCEPT ![s] = TRUE]
   /\ Wake("A", [NoWake EXCEPT !["stopped"] = OfStream("A", "stopped", s)])
   /\ UNCHANGED <<ph, connv, strv, sent, wire, rbuf, got, credit, cw, cmax, cmw, cblk, finS, finD, stopS, stopD, freed, dgv>>
+  /\ FlushA
 
 \* A: STOP_SENDING => Stream(Stopped{id}) => wake_stream(id, stopped); wake_stream(id, writable)
 DriverStopped(s) ==
@@ -463,6 +510,7 @@ DriverStopped(s) ==
   /\ Wake("A", [NoWake EXCEPT !["stopped"] = OfStream("A", "stopped", s),
                                !["writable"] = OfStream("A", "writable", s)])
   /\ UNCHANGED <<ph, connv, strv, sent, rbuf, got, credit, cw, cmax, cmw, cblk, finS, finD, stopS, acked, freed, dgv>>
+  /\ FlushA
 
 \* A: MAX_STREAMS => Stream(Available{dir}) => stream_available[dir].drain().wake()
 DriverMaxStreams ==
@@ -470,6 +518,7 @@ DriverMaxStreams ==
   /\ maxS' = maxS + msWire /\ msWire' = 0
   /\ Wake("A", [NoWake EXCEPT !["stream_available"] = All("A", "stream_available")])
   /\ UNCHANGED <<ph, connv, win, maxs0, total, openSeq, annUpTo, nAcc, rs, datav, dgv>>
+  /\ FlushA
 
 \* A: a datagram leaves the outgoing buffer => DatagramsUnblocked => datagrams_unblocked.drain().wake()
 DriverDatagramSent ==
@@ -480,19 +529,33 @@ DriverDatagramSent ==
      THEN Wake("A", [NoWake EXCEPT !["datagrams_unblocked"] = All("A", "datagrams_unblocked")])
      ELSE UNCHANGED <<tab, fs>>
   /\ UNCHANGED <<ph, connv, strv, datav, dgNext, dgBuf, dgGot>>
+  /\ FlushA
 
 \* B: DATAGRAM frame => DatagramReceived => datagram_received.drain().wake()
 DriverDatagramReceived ==
   /\ Live("B") /\ Len(dgWire) > 0
   /\ dgBuf' = Append(dgBuf, Head(dgWire)) /\ dgWire' = Tail(dgWire)
-  /\ Wake("B", [NoWake EXCEPT !["datagram_received"] = All("B", "datagram_received")])
+  \* quinn-proto emits DatagramReceived only for a datagram that arrives into an EMPTY queue
+  /\ IF Len(dgBuf) > 0 THEN UNCHANGED <<tab, fs>>
+     ELSE IF DgWakeAll \/ All("B", "datagram_received") = {}
+     THEN Wake("B", [NoWake EXCEPT !["datagram_received"] = All("B", "datagram_received")])
+     ELSE \E one \in All("B", "datagram_received") :          \* control: pop_front + one wake
+            Wake("B", [NoWake EXCEPT !["datagram_received"] = {one}])
   /\ UNCHANGED <<ph, connv, strv, datav, dgNext, dgOut, dgGot, dgBlocked>>
+  /\ WakeSame
+
+\* A: the driver task was scheduled by state.wake() and runs an iteration: poll_transmit
+DriverTransmit ==
+  /\ Live("A") /\ kick["A"]
+  /\ FlushA
+  /\ UNCHANGED <<appv, connv, strv, datav, dgv>>
 
 \* datagrams are unreliable
 DatagramLost ==
   /\ AllowLoss /\ Len(dgWire) > 0
   /\ dgWire' = Tail(dgWire)
   /\ UNCHANGED <<appv, connv, strv, datav, dgNext, dgOut, dgBuf, dgGot, dgBlocked>>
+  /\ WakeSame
 
 \* DEVIATION 1 (known finding): on_connected holds ONE waker; a second accepted_0rtt() waiter
 \* replaces the first, which is then woken neither by Connected nor by terminate.
@@ -510,13 +573,14 @@ AppStep == \/ \E s \in Streams : \/ PollOpenStream(s) \/ ExecutePollWrite(s) \/ 
                                  \/ ResetStream(s) \/ PollStopped(s)
            \/ \E j \in Streams : \/ PollAcceptStream(j) \/ StopStream(j)
                                  \/ \E k \in 1..Units : ExecutePollRead(j, k)
-           \/ TrySendDatagram \/ PollRecvDatagram
+           \/ TrySendDatagram \/ \E r \in {"DR", "DR2"} : PollRecvDatagram(r)
            \/ PollConnecting \/ PollHandshakeData \/ \E z \in {"Z1", "Z2"} : PollAccepted0rtt(z)
            \/ PollClosed \/ PollIncoming
 DriverStep == \/ \E s \in Streams : \/ \E k \in 0..Units, b \in BOOLEAN : DriverStreamFrame(s, k, b)
                                     \/ DriverResetStream(s) \/ DriverMaxStreamData(s)
                                     \/ DriverFinished(s) \/ DriverStopped(s)
               \/ DriverMaxData \/ DriverMaxStreams \/ DriverDatagramSent \/ DriverDatagramReceived
+              \/ DriverTransmit
               \/ DriverHandshakeDataReady \/ DriverConnected
               \/ \E x \in Sides : DriverCloseEvent(x) \/ DriverConnectionLost(x) \/ DriverDrained(x)
 CloseStep == \E x \in Sides : Close(x) \/ EndpointClose(x)
@@ -529,7 +593,7 @@ AcceptableFinal ==
   \A f \in Fut : \/ Complete(f)
                  \/ (f[1] = "WI" /\ ~epClosed["B"])      \* nobody closed the endpoint
                  \/ (f[1] = "CL" /\ Open("A"))           \* nobody closed the connection
-                 \/ (f[1] = "DR" /\ Open("B"))           \* datagrams may be lost
+                 \/ (f[1] \in {"DR", "DR2"} /\ Open("B"))           \* datagrams may be lost
                  \/ KnownStranded(f)
 Terminated == AcceptableFinal /\ UNCHANGED vars
 \* the same without the named deviations (used by the control runs: must be VIOLATED exactly
@@ -539,7 +603,7 @@ HangFree ==
      \A f \in Fut : \/ Complete(f)
                     \/ (f[1] = "WI" /\ ~epClosed["B"])
                     \/ (f[1] = "CL" /\ Open("A"))
-                    \/ (f[1] = "DR" /\ Open("B"))
+                    \/ (f[1] \in {"DR", "DR2"} /\ Open("B"))
 Next == Progress \/ Terminated
 
 Spec == Init /\ [][Next]_vars
@@ -595,7 +659,7 @@ KindOf(f) ==
   CASE f[1] = "W" -> (IF ph[f] \in {"open", "write", "stopped"} THEN ph[f] ELSE "none")
     [] f[1] = "R" -> (IF ph[f] \in {"accept", "read"} THEN ph[f] ELSE "none")
     [] f[1] = "DS" -> "send_datagram"
-    [] f[1] = "DR" -> "recv_datagram"
+    [] f[1] \in {"DR", "DR2"} -> "recv_datagram"
     [] f[1] = "CN" -> "connecting"
     [] f[1] = "HD" -> "handshake_data"
     [] f[1] \in {"Z1", "Z2"} -> "accepted_0rtt"
@@ -618,7 +682,7 @@ WouldBeReady(f) ==
   \/ f[1] = "R" /\ ph[f] = "accept" /\ nAcc < annUpTo
   \/ f[1] = "R" /\ ph[f] = "read" /\ (Len(rbuf[s]) > 0 \/ finD[s] # "no")
   \/ f[1] = "DS" /\ Len(dgOut) < DgCap
-  \/ f[1] = "DR" /\ Len(dgBuf) > 0
+  \/ f[1] \in {"DR", "DR2"} /\ Len(dgBuf) > 0
   \/ f[1] \in {"CN", "Z1", "Z2"} /\ hs = "done"
   \/ f[1] = "HD" /\ hs # "init"
   \/ f[1] = "CL" /\ ~drv["A"] /\ ~Open("A")
@@ -689,6 +753,15 @@ AbsRefines ==
        /\ Abs'.rd[s] > Abs.rd[s] => AReadOk(Abs, s, Abs.rd[s], Abs'.rd[s] - Abs.rd[s])
        /\ (Abs'.fin[s] # Abs.fin[s]) => AFinOk(Abs, s)
        /\ (Abs'.eof[s] /\ ~Abs.eof[s]) => AEofOk(Abs, s)]_vars
+
+\* the connection of A is quiet: nothing is queued for its driver and no event is on its way to it
+QuietA == /\ ~kick["A"] /\ cmw <= cmax /\ msWire = 0 /\ Len(dgOut) = 0 /\ ~closeWire["A"] /\ ~chan["A"]
+          /\ \A s \in Streams : /\ cw[s] <= credit[s] /\ (finS[s] = "fin" => finOut[s])
+                                /\ ~(finS[s] = "fin" /\ finD[s] = "fin" /\ ~acked[s])
+                                /\ ~(stopS[s] /\ ~stopD[s] /\ ~acked[s])
+\* finishing yields end-of-stream at the peer (needs the wake in finish: the connection may be quiet)
+EofArrives ==
+  \A s \in Streams : (finS[s] = "fin") ~> (finD[s] = "fin" \/ stopS[s] \/ ~Open("A") \/ ~Open("B"))
 
 \* liveness on FairSpec
 Termination == <>[]AcceptableFinal
